@@ -13,6 +13,8 @@ def evalHeatKernel(dgm1, dgm2, sigma):
     """
     Evaluate the continuous heat-based kernel between dgm1 and dgm2 (more correct than L2 on the discretized version above but may be slower because can't exploit fast matrix multiplication when evaluating many, many kernels)
     """
+    # (a Python float: 8 * sigma of a NumPy int8 / float16 scalar would wrap or lose digits)
+    sigma = float(sigma)
     kSigma = 0
     # floating point throughout: squared differences of integer arrays overflow or,
     # for unsigned types, wrap around
